@@ -612,6 +612,12 @@ func (m *Monitors) served(h *H, what, repo, real string, want []byte, known bool
 		return
 	}
 	if r.Status != 200 {
+		if ms, ok := rs.mans[real]; ok && ms.respLost && r.Status == 404 {
+			// a referrer whose subject was not a manifest of the repository at a collection: the configured policy
+			// (ReferrersWithSubj / ReferrersDangling) removes the response and what only it refers to - "removed by the
+			// configured garbage-collection policy", not judged here
+			return
+		}
 		name := "C02.readback"
 		if rs.orphans[real] {
 			// cause: the manifest had become a child record of an index (no top-level entry of its own) and that index was
